@@ -41,7 +41,7 @@ use proptest::prelude::*;
 use rv::engine::findings::KnownFindings;
 use rv::engine::{pick, CaseReport, Check, GroupOpts};
 use rv::http::{call_json, sse_data_payloads};
-use rv::store::{parse_log_values, Sandbox};
+use rv::store::Sandbox;
 use serde::{Deserialize, Serialize};
 use serde_json::{json, Value};
 use tokio::sync::watch;
@@ -76,7 +76,7 @@ const STEP_TIMEOUT: Duration = Duration::from_secs(8);
 const IDLE: Duration = Duration::from_secs(2);
 /// how long the driver waits for a released subscriber to return its response before it decides
 /// the snapshot is blocked on a lock held by the parked producer (only changes the schedule)
-const SNAPSHOT_QUANTUM: Duration = Duration::from_millis(40);
+const SNAPSHOT_QUANTUM: Duration = Duration::from_millis(60);
 
 fn trace_on() -> bool {
     static T: std::sync::OnceLock<bool> = std::sync::OnceLock::new();
@@ -703,13 +703,26 @@ impl Env {
     fn truth_since(&self, from: usize, kind: Kind, id: &str) -> Result<Vec<Value>, String> {
         let bytes = self.sandbox.log_bytes();
         let tail = if from <= bytes.len() { &bytes[from..] } else { &bytes[..] };
-        // a concurrent writer (noise run) may be in the middle of a line: keep whole lines only
+        // A concurrent writer (the run of a noise message) may be in the middle of a line both
+        // when `from` was taken and now: the window may start with the rest of a line that is not
+        // ours (the stream did not exist yet) and end with an unfinished one.
         let cut = tail.iter().rposition(|b| *b == b'\n').map(|i| i + 1).unwrap_or(0);
-        let vals = parse_log_values(&tail[..cut])?;
-        Ok(vals
-            .into_iter()
-            .filter(|v| v["stream_kind"] == kind.wire() && v["stream_id"] == id)
-            .collect())
+        let mut out = Vec::new();
+        for (i, line) in tail[..cut].split(|b| *b == b'\n').enumerate() {
+            if line.is_empty() {
+                continue;
+            }
+            match serde_json::from_slice::<Value>(line) {
+                Ok(v) => {
+                    if v["stream_kind"] == kind.wire() && v["stream_id"] == id {
+                        out.push(v);
+                    }
+                }
+                Err(_) if i == 0 => {}
+                Err(e) => return Err(format!("line {i}: {e}")),
+            }
+        }
+        Ok(out)
     }
 }
 
